@@ -34,6 +34,7 @@ class Tx:
             self.timeout = int(toks[6])
             self.group = None if toks[7] == "-" else toks[7]
             self.proof = toks[8]
+            self.ext = toks[9] if len(toks) > 9 else None    # the Extra field: x:bf / x:br = another hub's begin-failure / rollback notice
             self.id = f"1356:{self.frm}-1356:{self.to}-{self.index}" if self.frm.count(":") == 1 and self.to.count(":") == 1 else None
             # a transaction between this hub and another one (one side written with its hub id): tracked only in histories that
             # registered that hub (before, such a request is begin-failed and the id stays out of the protocol monitors)
@@ -318,7 +319,18 @@ def mon_c04_c06(h, obs, which):
                 o = ones.setdefault(tx.id, One())
                 if tx.typ == "req" and not rc.ok and rc.ret == "fee":
                     fee_failed.add(tx.id)
-                if tx.typ == "req" and rc.ok:
+                if tx.typ == "req" and rc.ok and tx0.id is None and o.status is not None and tx.ext in ("x:bf", "x:br"):
+                    # between two BitXHubs: the request handed back with the destination hub's notice (its status over there is
+                    # BEGIN_FAILURE / BEGIN_ROLLBACK) ends a transaction that is at BEGIN here: FAILURE resp. ROLLBACK
+                    if o.status == 0:
+                        o.status = 4 if tx.ext == "x:bf" else 5
+                        o.deadline = None
+                        if rc.ret == "batch_ibtp":
+                            o.batch_rcpt = True
+                    else:
+                        fp = "C04/notice-after-final" if o.status in (3, 4, 5) else "C04/notice-off-protocol"
+                        hit("C04", fp, f"notice '{tx.ext}' for {tx.id} accepted in block {b.h} while the protocol status was {o.status}", b.op, tid=tx.id)
+                elif tx.typ == "req" and rc.ok:
                     if rc.ret == "batch_ibtp":
                         # documented batch mode (unordered destination): outside the ordered protocol
                         group_ids.add(tx.id)
